@@ -13,7 +13,7 @@ from bubus import BaseEvent, EventBus  # noqa: E402
 
 LEVEL = 'model_checking'
 RULE = ('event streams of length <= 3 (thorough 4) over {T1 v=0, T1 v=1, T2 v=1} dispatched by main with environment waits in between; 1-2 concurrent expect() calls drawn from a menu of '
-        '(type by class or by name, include / exclude / deprecated predicate in {default, v==1, raises}, timeout in {None, 0.5}); calls start before the stream or after its first '
+        '(type by class or by name, include / exclude / deprecated predicate in {default, explicit None, v==1, raises}, timeout in {None, 0.5}); calls start before the stream or after its first '
         'event; an external canceller cancels the first call after 0-2 waits; calls still pending at the end are cancelled by the harness. Processing order comes from a sync probe handler '
         'registered before any expect(). all schedules <= L deviations. non-trivial = an expect call was pending while at least one event of its type was processed; distinct = recorder traces')
 ASSUMPTIONS = ['an event processed at the very instant of the deadline (|dt| < 1 us) may or may not be seen',
@@ -38,7 +38,7 @@ def _boom(e):
     raise KeyError('filter raises')
 
 
-FILTERS = {'default': None, 'is1': _is1, 'raises': _boom}
+FILTERS = {'default': None, 'none': None, 'is1': _is1, 'raises': _boom}
 # (type, by, include, exclude, predicate, timeout)
 MENU = [
     ('T1', 'cls', 'default', 'default', 'default', None),
@@ -51,6 +51,8 @@ MENU = [
     ('T2', 'str', 'is1', 'default', 'default', None),
     ('T1', 'cls', 'is1', 'default', 'default', None),   # 8: same type/timeout as 0, different filter
     ('T1', 'str', 'default', 'is1', 'default', 0.5),   # 9: same type/timeout as 1, complementary filter
+    ('T1', 'cls', 'is1', 'default', 'none', 0.5),      # 10: predicate=None passed explicitly (the README's documented default)
+    ('T1', 'str', 'default', 'default', 'none', None),  # 11
 ]
 
 
@@ -78,7 +80,9 @@ class ExpectWorld:
             kw['include'] = FILTERS[inc]
         if FILTERS[exc]:
             kw['exclude'] = FILTERS[exc]
-        if FILTERS[pred]:
+        if pred == 'none':
+            kw['predicate'] = None
+        elif FILTERS[pred]:
             kw['predicate'] = FILTERS[pred]
         if tmo is not None:
             kw['timeout'] = tmo
@@ -205,7 +209,7 @@ def families(tier):
         streams += list(itertools.product(letters, repeat=n))
     if deep:
         streams += [st for st in itertools.product(letters, repeat=4) if st[0] == ('T1', 0) and st[3] != ('T2', 1)]
-    call_sets = [(i,) for i in range(8)] + [(0, 1), (1, 2), (3, 4), (0, 5), (2, 6), (1, 7), (4, 0), (0, 8), (8, 0), (1, 9), (9, 1)]
+    call_sets = [(i,) for i in range(8)] + [(10,), (11,), (10, 0), (0, 1), (1, 2), (3, 4), (0, 5), (2, 6), (1, 7), (4, 0), (0, 8), (8, 0), (1, 9), (9, 1)]
     for stream in streams:
         for calls in call_sets:
             if len(calls) == 2 and len(stream) > (3 if deep else 2):
@@ -247,7 +251,7 @@ def trigger(spec, res):
 def _passes(cfgm, v):
     typ, by, inc, exc, pred, tmo = cfgm
     def f(name, dflt):
-        if name == 'default':
+        if name in ('default', 'none'):
             return dflt
         if name == 'raises':
             return 'raise'
